@@ -80,7 +80,7 @@ namespace OpenMEEG {
 
         double operator()(const Index i,const Index j) const {
             om_assert(i<nlin() && j<ncol());
-            return value[i+nlin()*j];
+            return value[i+static_cast<size_t>(nlin())*j];
         }
 
         /// \brief Get Matrix value
@@ -88,7 +88,7 @@ namespace OpenMEEG {
 
         double& operator()(const Index i,const Index j) {
             om_assert(i<nlin() && j<ncol());
-            return value[i+nlin()*j];
+            return value[i+static_cast<size_t>(nlin())*j];
         }
 
         Matrix submat(const Index istart,const Index isize,const Index jstart,const Index jsize) const;
